@@ -548,7 +548,8 @@ package cache
 
 //@ func (*Trait).invokeCleanup
 //@   props C11 C12
-//@   replay traitrace
+//@   replay cleanup
+//@   replayfor guard: traitrace
 //@   requires c.Config.DeleteExpiredAfter >= 0 && c.Config.DeleteExpiredAfter <= 1577880000000000000
 //@   requires c.Config.EvictFraction >= 0.0 && c.Config.EvictFraction <= 1.0
 //@   requires c.Config.CountSoftLimit <= 1099511627776
